@@ -209,6 +209,29 @@ def cli_sessions(inputs: list[bytes], work: str, rng: random.Random) -> list[dic
 
     def run(job):
         data, mode, use_stdin, use_kw, cmd = job
+        if use_stdin and len(data) > 40:
+            # a writer that pauses: the input reaches the pipe in several pieces (a reader must go on until end of file)
+            import threading
+            import time as _t
+
+            pr = subprocess.Popen(cmd, stdin=subprocess.PIPE, stdout=subprocess.PIPE, stderr=subprocess.PIPE, env=env)
+
+            def feed():
+                try:
+                    pr.stdin.write(data[:17])
+                    pr.stdin.flush()
+                    _t.sleep(0.4)
+                    pr.stdin.write(data[17:])
+                    pr.stdin.close()
+                except OSError:
+                    pass
+
+            th = threading.Thread(target=feed)
+            th.start()
+            out = pr.stdout.read()
+            err = pr.stderr.read()
+            th.join()
+            return pr.wait(timeout=300), out, err
         pr = subprocess.run(cmd, input=data if use_stdin else None, capture_output=True, env=env, timeout=300)
         return pr.returncode, pr.stdout, pr.stderr
 
@@ -300,6 +323,9 @@ def run(prop: str, tier: str) -> int:
             base = b"cmd /c echo http://evil-site.net/a.exe 6576696c2e636f6d2f6d616c77617265"
             cli_in += [b"\xef\xbb\xbf" + base, b"\xff\xfe" + base, b"\xfe\xff" + base, b"\n\n  " + base + b"  \r\n\r\n", b"\x00" + base + b"\x00",
                        base + b"\n", b"\xef\xbb\xbf", b"\r\n", base.replace(b" ", b"\xa0"), b"\x1a" + base]
+            # more than a pipe buffer (64 KiB) of input, with the indicators at the very end
+            big = (b"filler line 7;\n" * 4500) + b"get http://evil-site.net/malware.exe now\n"
+            cli_in += [big, big, big, big, big, big]          # every output mode, file argument and stdin
             for rec in cli_sessions(cli_in, work, rng):
                 f.write(json.dumps(rec) + "\n")
                 n += 1
